@@ -36,12 +36,24 @@ type simErr struct{ Tok string }
 func (e *simErr) Error() string { return "simulated failure " + e.Tok }
 
 // customErr is a struct-typed error found with errors.As.
+// nilPtrErr: the "typednil" flavour. The error a callback returns is a nil
+// *nilPtrErr in a non-nil error interface - the classic gotcha; it is an
+// error (err != nil), and the framework must treat it as one.
+type nilPtrErr struct{ _ int }
+
+func (e *nilPtrErr) Error() string { return "typed-nil error" }
+
 type customErr struct {
 	Tok  string
 	Code int
 }
 
-func (e customErr) Error() string { return "custom failure " + e.Tok }
+// Error is slow (a scheduling point): whoever renders this error's message
+// gives every other task a chance to move meanwhile.
+func (e customErr) Error() string {
+	simrt.YieldLast("customErr.Error") // (runs on when nothing else can: as slow as it gets)
+	return "custom failure " + e.Tok
+}
 
 // wrapErr is a struct-typed error that itself wraps another error (Unwrap).
 type wrapErr struct {
@@ -133,6 +145,9 @@ func payDesc(kind, tok string) string {
 func (r *registry) mkErr(flavor, tok string) error {
 	var re regErr
 	switch flavor {
+	case "typednil":
+		var e *nilPtrErr
+		re = regErr{base: e, returned: e}
 	case "sentinel", "errres":
 		e := &simErr{Tok: tok}
 		re = regErr{base: e, returned: e}
@@ -283,19 +298,21 @@ func (r *registry) describeErr(err error) string {
 	// struct-typed error by errors.As with the same fields
 	for i, re := range errs {
 		switch b := re.base.(type) {
+		// (an error that wraps the callback's error with %w is that error, as far
+		// as every property is concerned: errors.Is / errors.As is the criterion)
 		case customErr:
 			var got customErr
 			if errors.As(err, &got) && got == b {
-				return "~" + toks[i]
+				return toks[i]
 			}
 		case wrapErr:
 			var got wrapErr
 			if errors.As(err, &got) && got == b && errors.Is(err, re.returned) {
-				return "~" + toks[i]
+				return toks[i]
 			}
 		default:
 			if errors.Is(err, re.returned) {
-				return "~" + toks[i]
+				return toks[i]
 			}
 		}
 	}
@@ -440,7 +457,7 @@ func (h *harness) perform(n *NodeSpec, o Outcome, barrierNeed int) {
 		if o.Conn.To >= 0 {
 			to = h.nodes[o.Conn.To]
 		}
-		h.nodes[o.Conn.Flow].(*flyt.Flow).Connect(h.nodes[o.Conn.From], flyt.Action(o.Conn.Action), to)
+		flowOf(h.nodes[o.Conn.Flow]).Connect(h.nodes[o.Conn.From], flyt.Action(o.Conn.Action), to)
 	}
 	if o.Cancel {
 		simrt.Emit(simrt.Event{Kind: "cancel", N: n.ID, V: h.st[n.ID].cur})
@@ -706,8 +723,9 @@ func (h *harness) exec(ctx context.Context, n *NodeSpec, arg any, anyStyle bool)
 		simrt.EmitF(end, nil, func(*simrt.Event) { st.open = false })
 		return nil, e, nil
 	default:
-		e := h.reg.mkErr(o.Fail, tok+"X")
-		end.S1 = "err:" + tok + "X"
+		et := execErrTok(o, tok)
+		e := h.reg.mkErr(o.Fail, et)
+		end.S1 = "err:" + et
 		budget := 1
 		if n.retryable() {
 			budget = max(n.configRun(h.runIdx).Retries, 1)
@@ -943,6 +961,27 @@ func (*zst3) Prep(ctx context.Context, s *flyt.SharedStore) (any, error) { retur
 func (*zst3) Exec(ctx context.Context, p any) (any, error)               { return zExec(ctx, 3, p) }
 func (*zst3) Post(ctx context.Context, s *flyt.SharedStore, p, e any) (flyt.Action, error) {
 	return zPost(3, s, p, e)
+}
+
+// flowWrap: a user type that embeds *flyt.Flow and overrides Post.
+type flowWrap struct {
+	*flyt.Flow
+	action string
+}
+
+func (w *flowWrap) Post(ctx context.Context, shared *flyt.SharedStore, prep, exec any) (flyt.Action, error) {
+	return flyt.Action(w.action), nil
+}
+
+// flowOf: the flow behind a node of kind flow (wrapped or not), nil otherwise.
+func flowOf(n flyt.Node) *flyt.Flow {
+	switch f := n.(type) {
+	case *flyt.Flow:
+		return f
+	case *flowWrap:
+		return f.Flow
+	}
+	return nil
 }
 
 // Value-type nodes: a node need not be a pointer. valNode(0) is the zero value
@@ -1428,6 +1467,9 @@ func (h *harness) build() {
 				}
 			}
 			h.nodes[i] = f
+			if n.Wrap != "" {
+				h.nodes[i] = &flowWrap{Flow: f, action: n.Wrap}
+			}
 		default:
 			panic("bad node kind " + n.Kind)
 		}
@@ -1438,7 +1480,7 @@ func (h *harness) build() {
 		if n.Kind != "flow" {
 			continue
 		}
-		f := h.nodes[i].(*flyt.Flow)
+		f := flowOf(h.nodes[i])
 		for _, c := range n.Conns {
 			var to flyt.Node
 			if c.To >= 0 {
@@ -1462,7 +1504,7 @@ type getters interface {
 func (h *harness) reconfigure() {
 	any := false
 	for i, n := range h.sc.Nodes {
-		if f, ok := h.nodes[i].(*flyt.Flow); ok {
+		if f := flowOf(h.nodes[i]); f != nil {
 			for _, c := range n.LateConns {
 				var to flyt.Node
 				if c.To >= 0 {
@@ -1665,7 +1707,7 @@ func (h *harness) runMain() {
 				}
 			}()
 			if sc.Via == "flowrun" {
-				err = h.nodes[sc.Root].(*flyt.Flow).Run(h.ctx, h.store)
+				err = flowOf(h.nodes[sc.Root]).Run(h.ctx, h.store)
 				action = "(flow.Run)"
 			} else {
 				action, err = flyt.Run(h.ctx, h.nodes[sc.Root], h.store)
